@@ -101,10 +101,10 @@ def run(ctx):
                 if name.startswith(('recordcomplement', 'recorddiff')):
                     tabs[1] = [['v', 'k']] + [[r[1], r[0]] for r in tabs[1][1:]]
                 nmax = max(len(t) - 1 for t in tabs)
-                default = util.run_show(lambda: call(*tabs))
+                default = util.run_show_typed(lambda: call(*tabs))
                 nt = nmax >= 2
                 def check(kw, what):
-                    out = util.run_show(lambda: call(*tabs, **kw))
+                    out = util.run_show_typed(lambda: call(*tabs, **kw))
                     ctx.case((name, repr(tabs), repr(sorted(kw.items()))) if nt else None,
                              sample={'op': name, 'tables': repr(tabs), 'args': repr(kw), 'out': out} if len(ctx.samples) < 5 and nt and ctx.evaluations % 301 == 0 else None)
                     ctx.count('arg:' + what)
@@ -128,9 +128,9 @@ def run(ctx):
                 # presorted on pre-sorted input
                 if skey is not None:
                     sk = None if skey == () else skey
-                    ptabs = [[tuple(r) for r in etl.sort(t, sk)] for t in tabs]
-                    pdefault = util.run_show(lambda: call(*ptabs))
-                    out = util.run_show(lambda: call(*ptabs, presorted=True))
+                    ptabs = [[list(r) for r in etl.sort(t, sk)] for t in tabs]      # list rows: what is delivered must not be the source's own row
+                    pdefault = util.run_show_typed(lambda: call(*ptabs))
+                    out = util.run_show_typed(lambda: call(*ptabs, presorted=True))
                     ctx.case((name, 'presorted', repr(ptabs)) if nt else None)
                     ctx.count('arg:presorted')
                     if out != pdefault:
